@@ -13,9 +13,16 @@ import (
 // symSig: an 8-byte signature for (signer, height, content): if the symbolic bit `proper` is set it is a
 // genuine signature made with the signer's key over exactly these bytes, otherwise 8 arbitrary bytes
 // (which may replay any token already in the registry). No fork.
+// advProtected: ids whose keys the adversary does not hold (the correct nodes of a multi-node run).
+var advProtected []byte
+
 func symSig(reg *stub.Registry, kind int, signer []byte, height uint64, content []byte, name string) (sig []byte, valid bool) {
 	proper := env.NondetBool(name + "_proper")
-	tok := reg.Sign(kind, signer, height, content)
+	for _, id := range advProtected {
+		// unforgeability: a genuine signature can only be made under a key the adversary holds
+		env.Assume(env.Implies(proper, env.Not(env.And(len(signer) == 1, signer[0] == id))))
+	}
+	tok := reg.SignIf(proper, kind, signer, height, content)
 	arb := env.NondetBytes(name+"_sig", 8)
 	sig = make([]byte, 8)
 	for x := 0; x < 8; x++ {
@@ -48,15 +55,23 @@ func newSymRef(name string) *symRef {
 }
 
 type symSender struct {
-	id    byte
-	sig   []byte
-	valid bool // the signature verifies for (id, height, header bytes)
-	b     *protocol.SenderSignatureBuilder
+	id      byte
+	sig     []byte
+	b       *protocol.SenderSignatureBuilder
+	reg     *stub.Registry
+	height  uint64
+	content []byte
+}
+
+// isValid: the signature verifies for (id, height, header bytes). Evaluated when asked (not when the
+// message part was built): signatures registered later over identical bytes make a replay valid too.
+func (s *symSender) isValid() bool {
+	return s.reg.Valid(stub.KindConsensus, []byte{s.id}, s.height, s.content, s.sig)
 }
 
 func newSymSender(reg *stub.Registry, name string, height uint64, content []byte) *symSender {
-	s := &symSender{id: env.NondetU8(name + "_id")}
-	s.sig, s.valid = symSig(reg, stub.KindConsensus, []byte{s.id}, height, content, name)
+	s := &symSender{id: env.NondetU8(name + "_id"), reg: reg, height: height, content: content}
+	s.sig, _ = symSig(reg, stub.KindConsensus, []byte{s.id}, height, content, name)
 	s.b = &protocol.SenderSignatureBuilder{MemberId: primitives.MemberId{s.id}, Signature: s.sig}
 	return s
 }
@@ -134,10 +149,10 @@ func (c *refCommittee) proofOK(p *symProof, H primitives.BlockHeight, voteView p
 	ok = env.And(ok, env.And(p.pp.view == p.p.view, p.pp.view < voteView))
 	ok = env.And(ok, p.pp.hash == p.p.hash)
 	ok = env.And(ok, p.pp.instance == p.p.instance)
-	ok = env.And(ok, env.And(p.ppS.valid, p.ppS.id == c.leader(p.pp.view)))
+	ok = env.And(ok, env.And(p.ppS.isValid(), p.ppS.id == c.leader(p.pp.view)))
 	ids := []byte{p.ppS.id}
 	for j, s := range p.pS {
-		ok = env.And(ok, env.And(s.valid, env.And(c.member(s.id), s.id != p.ppS.id)))
+		ok = env.And(ok, env.And(s.isValid(), env.And(c.member(s.id), s.id != p.ppS.id)))
 		for j2 := 0; j2 < j; j2++ {
 			ok = env.And(ok, s.id != p.pS[j2].id)
 		}
